@@ -57,7 +57,8 @@ pub enum Op {
     VaultUpd { who: u8, i: usize, #[serde(with = "opt_f3")] f: Option<F3> },
     DistInst(u64, u64),
     DistUpd { who: u8, i: usize, grace: Option<u64>, dur: Option<u64> },
-    LairInst(#[serde(with = "s128")] u128, Vec<bool>),
+    /// (growth rate, kinds of the listed bonding assets, `dup`: consecutive native entries name the SAME denom - [a, a, b, b, ..])
+    LairInst(#[serde(with = "s128")] u128, Vec<bool>, #[serde(default)] bool),
     LairUpd { who: u8, i: usize, #[serde(with = "opt_s128")] growth: Option<u128> },
     CollInst,
     CollUpd { who: u8, i: usize, #[serde(with = "opt_s128")] rate: Option<u128> },
@@ -88,7 +89,7 @@ impl Op {
             Op::VaultUpd { who, i, f } => format!("VaultUpd {} {} {}", who, i, optf(f)),
             Op::DistInst(g, d) => format!("DistInst {} {}", g, d),
             Op::DistUpd { who, i, grace, dur } => format!("DistUpd {} {} {} {}", who, i, optz(grace), optz(dur)),
-            Op::LairInst(g, a) => format!("LairInst {} {}", g, coqlist(&a.iter().map(|b| coqbool(*b).to_string()).collect::<Vec<_>>())),
+            Op::LairInst(g, a, _) => format!("LairInst {} {}", g, coqlist(&a.iter().map(|b| coqbool(*b).to_string()).collect::<Vec<_>>())),
             Op::LairUpd { who, i, growth } => format!("LairUpd {} {} {}", who, i, optz(growth)),
             Op::CollInst => "CollInst".into(),
             Op::CollUpd { who, i, rate } => format!("CollUpd {} {} {}", who, i, optz(rate)),
@@ -277,9 +278,9 @@ impl W18 {
                     owner: None, bonding_contract_addr: None, fee_collector_addr: None, grace_period: grace.map(Uint64::new), distribution_asset: None,
                     epoch_config: dur.map(|d| EpochConfig { duration: Uint64::new(d), genesis_epoch: Uint64::new(0) }) }, &[])).is_some()
             }
-            Op::LairInst(g, kinds) => {
+            Op::LairInst(g, kinds, dup) => {
                 let cw = self.cw20.clone();
-                let assets: Vec<AssetInfo> = kinds.iter().enumerate().map(|(k, t)| if *t { token(&cw) } else { native(DENOMS8[k % 8]) }).collect();
+                let assets: Vec<AssetInfo> = kinds.iter().enumerate().map(|(k, t)| if *t { token(&cw) } else { native(DENOMS8[(if dup { k / 2 } else { k }) % 8]) }).collect();
                 let r = catch(|| inst_lair(&mut self.app, &c, ADMIN, 1_000_000, g, assets.clone()));
                 match r { Some(a) => { self.lairs.push(a); true } None => false }
             }
@@ -477,8 +478,8 @@ pub fn gen_history(rng: &mut Rng) -> Vec<Op> {
                 let dur = match rng.below(8) { 0 => Some(DAY_NS - 1), 1 => Some(DAY_NS), 2 => Some(DAY_NS + 1), 3 => Some(0), 4 => Some(2 * DAY_NS), 5 => Some(7 * DAY_NS), _ => None };
                 Op::DistUpd { who: gen_who(rng), i, grace, dur }
             }
-            85..=88 => { let n = rng.below(4) as usize; let mut kinds = vec![false; n]; if n > 0 && rng.chance(1, 4) { let j = rng.below(n as u64) as usize; kinds[j] = true; }
-                         Op::LairInst(*rng.pick(&[0u128, 1, DEC - 1, DEC, DEC + 1, 2 * DEC, u128::MAX]), kinds) }
+            85..=88 => { let n = rng.below(5) as usize; let mut kinds = vec![false; n]; if n > 0 && rng.chance(1, 4) { let j = rng.below(n as u64) as usize; kinds[j] = true; }
+                         Op::LairInst(*rng.pick(&[0u128, 1, DEC - 1, DEC, DEC + 1, 2 * DEC, u128::MAX]), kinds, rng.chance(1, 3)) }
             89..=92 if nl > 0 => Op::LairUpd { who: gen_who(rng), i: rng.below(nl as u64) as usize, growth: if rng.chance(1, 8) { None } else { Some(*rng.pick(&[0u128, DEC / 2, DEC - 1, DEC, DEC + 1, u128::MAX])) } },
             93..=94 => Op::CollInst,
             95..=99 if nc > 0 => Op::CollUpd { who: gen_who(rng), i: rng.below(nc as u64) as usize, rate: if rng.chance(1, 8) { None } else { Some(*rng.pick(&[0u128, DEC / 10, DEC - 1, DEC, DEC + 1, u128::MAX])) } },
@@ -517,7 +518,8 @@ fn corpus() -> Vec<Vec<Op>> {
              Op::DistUpd { who: 0, i: 0, grace: Some(29), dur: None }, Op::DistUpd { who: 0, i: 0, grace: Some(31), dur: None }, Op::DistUpd { who: 0, i: 0, grace: None, dur: Some(DAY_NS - 1) },
              Op::DistUpd { who: 2, i: 0, grace: Some(30), dur: Some(DAY_NS) }],
         // lair and collector
-        vec![Op::LairInst(DEC, vec![false, false]), Op::LairInst(DEC + 1, vec![false]), Op::LairInst(0, vec![false, false, false]), Op::LairInst(0, vec![true]),
+        vec![Op::LairInst(DEC, vec![false, false], false), Op::LairInst(DEC + 1, vec![false], false), Op::LairInst(0, vec![false, false, false], false), Op::LairInst(0, vec![true], false),
+             Op::LairInst(DEC, vec![false, false, false], true), Op::LairInst(0, vec![false, false, false, false], true), Op::LairInst(DEC / 2, vec![false, false], true),
              Op::LairUpd { who: 0, i: 0, growth: Some(DEC + 1) }, Op::LairUpd { who: 0, i: 0, growth: Some(DEC) }, Op::CollInst, Op::CollUpd { who: 0, i: 0, rate: Some(DEC) },
              Op::CollUpd { who: 0, i: 0, rate: Some(DEC - 1) }, Op::CollUpd { who: 2, i: 0, rate: Some(0) }],
     ]
